@@ -22,7 +22,9 @@ ASSUMPTIONS = ['R11: only U+0020 is stripped by the oracle; submissions whose en
                'case folding = str.lower()']
 
 PIECES = ['a', 'B', 'b', 'A', 'é', 'É', 'İ', '1', '-', '.', ' ', ' ', '  ',
-          '\t', '\r', '\n', '\r\n', '\n\r', 'x', 'Y']
+          '\t', '\r', '\n', '\r\n', '\n\r', 'x', 'Y', u'\xdf', u'\u03c2', u'\u017f', u'\ufb01', 's']
+# letters that compatibility / full case folding would identify with other spellings; lower-casing keeps them apart
+FOLD_VARIANTS = [(u'\xdf', 'ss'), (u'\u03c2', u'\u03c3'), (u'\u017f', 's'), (u'\ufb01', 'fi'), (u'\u1e9e', 'ss'), (u'\u0130', 'i')]
 WS = [' ', '  ', '\t', '\r', '\n', '\r\n', '\n\r', ' \t ']
 # whitespace other than space / tab / line breaks: removed at the ends by strip, an ordinary character anywhere else
 END_WS = [u'\xa0', u'\x0c', u'\x0b', u'\u3000', u' \xa0', u'\u2003 ']
@@ -74,9 +76,19 @@ def rand_string(rng, maxlen=7):
 def edit(rng, s):
     """Return (kind, edited string)."""
     kind = rng.choice(['same', 'ws_front', 'ws_back', 'ws_inside', 'ws_delete', 'case', 'char',
-                       'ws_swap', 'nbsp_inside', 'random'])
+                       'ws_swap', 'nbsp_inside', 'random', 'fold_variant'])
     if kind == 'same':
         return kind, s
+    if kind == 'fold_variant':
+        here = [(a, b) for a, b in FOLD_VARIANTS if a in s]
+        if not here:
+            if not s:
+                return 'same', s
+            a, b = rng.choice(FOLD_VARIANTS)
+            k = rng.randrange(len(s))
+            return kind, s[:k] + (a if rng.random() < 0.5 else b) + s[k + 1:]
+        a, b = rng.choice(here)
+        return kind, s.replace(a, b, 1)
     if kind == 'ws_front':
         return kind, rng.choice(WS + END_WS) + s
     if kind == 'ws_back':
